@@ -426,7 +426,7 @@ def candidates(cls_name: str, fname: str, kind: str, cur: Any,
         return [("bytes", b[:-1] + bytes([b[-1] ^ 0x01]))]
     if kind == "enum":
         assert etype is not None
-        members = list(etype)
+        members = list(etype)  # type: ignore[call-overload]
         if cur in members:
             i = members.index(cur)
             members = members[i + 1:] + members[:i]
@@ -498,7 +498,7 @@ def _simple_value(dop: Any, depth: int = 0, variant: int = 0) -> Any:
         return dop.dtcs[0].trouble_code if dop.dtcs else 1
     pt = getattr(getattr(dop, "physical_type", None), "base_data_type", None)
     cm = getattr(dop, "compu_method", None)
-    if type(cm).__name__ == "TexttableCompuMethod":
+    if cm is not None and type(cm).__name__ == "TexttableCompuMethod":
         for sc in cm.compu_internal_to_phys.compu_scales:
             if sc.compu_const is not None and sc.compu_const.vt is not None:
                 return sc.compu_const.vt
